@@ -176,7 +176,9 @@ class Ctx:
             cb = self.prog.body(clo[1])
             if cb is not None and self.level < 3:
                 caps = {n: v for _, n, v in clo[2]}
-                cc = Ctx(cb, captures=caps, assumptions=self.assumptions)
+                # the arguments of the call (`has_prefix(&cfg.prefix)`): Fn::call(closure, (a0, a1, ..))
+                cargs = t[2][1][1] if len(t[2]) > 1 and t[2][1][0] == "tuple" else ()
+                cc = Ctx(cb, params={i_ + 2: a_ for i_, a_ in enumerate(cargs)}, captures=caps, assumptions=self.assumptions)
                 cc.level = self.level + 1
                 rt = cc.settle().T.return_term()
                 if rt[0] == "const" and rt[1] == "bool":
